@@ -94,6 +94,12 @@ func (s *Translator) buildCreateSourceFrame(idAlias pgsql.Identifier, sequenceTa
 		carried      = pgsql.NewIdentifierSet()
 	)
 
+	// When the CREATE opens a query part that ends in WITH, the current frame is the wrapper frame of that part,
+	// which is still being defined. The rows to create for are those of the frame before the wrapper, if any.
+	if currentPart := s.query.CurrentPart(); currentFrame != nil && currentPart.Frame == currentFrame {
+		currentFrame = currentFrame.Previous
+	}
+
 	if currentFrame != nil {
 		carried = currentFrame.Known()
 	}
